@@ -210,19 +210,24 @@ def verdict (toks : List String) (out : String) : String :=
   | ["lay", fmt, ls, _cfgs] =>
     let fq := fmt = "fq"
     if fmt ≠ "fa" ∧ fmt ≠ "fq" then "bad-op format" else
-    let built : Option (List GRec × Bytes × Bool × Bool) :=
+    -- `strict`: the layout is a plain re-wrapping (no blank lines, FASTQ: qualities wrapped like the sequence,
+    -- bare `+` line) — what the property text names; the other layouts the theorems cover are compared as `drift`
+    let built : Option (List GRec × Bytes × Bool × Bool × Bool) :=
       if fq then do
         let l ← parseList parseLayFq ls '/'
         if !l.all (fun x => layoutOkFq x.2) then none else
         pure (l.map (·.1), layoutFastq (l.map fun x => (toFq x.1, x.2)),
-              l.any (fun x => x.2.seqPieces.length > 1), l.any (fun x => x.2.eol.length = 2))
+              l.any (fun x => x.2.seqPieces.length > 1), l.any (fun x => x.2.eol.length = 2),
+              l.all (fun x => x.2.plus.isEmpty && x.2.seqPieces.all (!·.isEmpty)
+                && x.2.seqPieces.map (·.length) == x.2.qualPieces.map (·.length)))
       else do
         let l ← parseList parseLayFa ls '/'
         pure (l.map (·.1), layoutFasta (l.map fun x => (toFa x.1, x.2.1, x.2.2)),
-              l.any (fun x => x.2.1.length > 1), l.any (fun x => x.2.2.length = 2))
+              l.any (fun x => x.2.1.length > 1), l.any (fun x => x.2.2.length = 2),
+              l.all (fun x => x.2.1.all (!·.isEmpty)))
     match built with
     | none => "bad-op layout"
-    | some (recs, fbytes, multi, crlf) =>
+    | some (recs, fbytes, multi, crlf, strict) =>
       if !recs.all (validRec fq) then "bad-op invalid-record" else
       let exp := expected recs
       if model fq fbytes ≠ exp then "bad-op model-does-not-parse-layout" else
@@ -233,8 +238,11 @@ def verdict (toks : List String) (out : String) : String :=
         | some fobs =>
           if fobs ≠ fbytes then "bad-op layout-bytes-differ" else
           match checkRs exp rest with
-          | some r => "reject " ++ r
+          | some r =>
+            if strict || r.startsWith "endless" then "reject " ++ r
+            else "ok" ++ tagsOf fq recs multi ++ " layout layout-extended drift"
           | none => "ok" ++ tagsOf fq recs multi ++ " layout" ++ (if crlf then " crlf" else "")
+              ++ (if strict then " layout-strict" else " layout-extended")
       | [] => "bad-op observation"
   | ["cut", fmt, ws, rs, os, _cfg] =>
     let fq := fmt = "fq"
